@@ -612,7 +612,7 @@ fn emit_merge(out: &mut CaseOut, obs: &MergeObs, to_coq: bool) {
     if !to_coq { return; }
     let sch = coq_schema(&obs.srcs[0], &keys);
     let srcs = cf::list(&obs.srcs, |d| coq_seg(d, &keys));
-    let o = match &obs.out { None => "None".to_string(), Some(o) => { let mut o = o.clone(); /* SELFTEST */ if let Some(p) = o.inv.iter_mut().flat_map(|(_, d)| d.iter_mut()).flat_map(|(_, pl)| pl.iter_mut()).next() { p.1 += 1; } format!("(Some {})", coq_seg(&o, &keys)) } };
+    let o = match &obs.out { None => "None".to_string(), Some(o) => format!("(Some {})", coq_seg(o, &keys)) };
     let mut desc = obs.desc.clone();
     desc["sources"] = json!(nsrc); desc["live"] = json!(live); desc["deleted"] = json!(deleted);
     out.coq_case("tie", format!("forallb (wf_segb {sch}) {srcs}"), json!({"what": "source dumps are well-formed", "case": desc}), false);
@@ -744,7 +744,7 @@ fn main() {
     let thorough = args.thorough();
     let mut out = CaseOut::new(&args.out, HEADER, 12);
 
-    let n_cases = if thorough { 900 } else { 150 };
+    let n_cases = if thorough { 900 } else { 120 };
     let coq_every = if thorough { 3 } else { 1 };
     for case_no in 0..n_cases {
         let nseg = match case_no % 7 { 0 => 1, 1 => 2, 2 => 3, 3 => 4, 4 => 5, 5 => 6, _ => rng.range(2, 6) as usize };
